@@ -1,12 +1,12 @@
 package checks
 
 import (
-	"regexp"
 	"crypto/sha1"
 	"encoding/json"
 	"fmt"
 	"os"
 	"path/filepath"
+	"regexp"
 	"strings"
 	"sync"
 	"sync/atomic"
@@ -84,7 +84,6 @@ func parseSteps(base string, stderr []byte) []stepLabel {
 	}
 	return out
 }
-
 
 var scratchSeq int64
 
